@@ -8,17 +8,22 @@ import (
 	"github.com/sirupsen/logrus"
 
 	"hop.computer/hop/common"
+	"hop.computer/hop/transport"
 )
 
 // C09 / C11 — the muxer: identifiers, demultiplexing, robustness of its receive loop.
 
 type c09Conn struct {
-	frames [][]byte
-	reads  int
-	writes [][]byte
+	frames  [][]byte
+	reads   int
+	writes  [][]byte
+	offered int // smallest buffer ReadMsg was ever offered (0 = never called)
 }
 
 func (c *c09Conn) ReadMsg(b []byte) (int, error) {
+	if c.offered == 0 || len(b) < c.offered {
+		c.offered = len(b)
+	}
 	if c.reads >= len(c.frames) {
 		return 0, io.EOF
 	}
@@ -68,7 +73,9 @@ func c09UnrelReceiveInit(u *Unreliable, f *initiateFrame) error {
 //verif:prop C09
 //verif:bounds both parities; the four lowest identifiers of the muxer's parity occupied or free (symbolic), two identifiers of the other parity occupied; reliable or unreliable table; plus the fully occupied table
 //verif:cover picked;exhausted
+//verif:unwind 400
 func VH_C09_picktubeid_smallest_free_with_own_parity() {
+	verifTerminationRequired() // the search over at most 128 identifiers must end
 	m := &Muxer{reliableTubes: map[byte]*Reliable{}, unreliableTubes: map[byte]*Unreliable{}, log: logrus.NewEntry(logrus.New())}
 	m.idParity = byte(verifPick("parity", 0, 1))
 	rel := verifBool("reliable")
@@ -123,8 +130,8 @@ func VH_C09_picktubeid_smallest_free_with_own_parity() {
 //verif:stub (*hop.computer/hop/tubes.Reliable).receiveInitiatePkt = c09RelReceiveInit
 //verif:stub (*hop.computer/hop/tubes.Unreliable).receive = c09UnrelReceive
 //verif:stub (*hop.computer/hop/tubes.Unreliable).receiveInitiatePkt = c09UnrelReceiveInit
-//verif:bounds muxer with one reliable and one unreliable tube (symbolic ids); first frame: every header byte symbolic, length field in {0,3,0xFFFF}, 65535-byte buffer; second frame: a valid data frame for the reliable tube; then end of input. Tube objects' own receive functions are recorders
-//verif:cover delivered;created;dropped-malformed;ignored-unknown
+//verif:bounds muxer with one reliable and one unreliable tube (symbolic ids), accept queue empty or full (128 waiting); first frame: every header byte symbolic, length field in {0,3,0xFFFF}, 65535-byte buffer; second frame: a valid data frame for the reliable tube; then end of input. Tube objects' own receive functions are recorders
+//verif:cover delivered;created;dropped-malformed;ignored-unknown;offer-pending
 //verif:timeout 600
 func VH_C09_receive_loop_delivers_only_to_the_addressed_tube() { c09Loop("C09") }
 
@@ -155,7 +162,30 @@ func c09Loop(prop string) {
 	conn.frames = [][]byte{f1, good}
 	id, rel, req, resp := f1[0], f1[1]&(1<<RELIdx) != 0, f1[1]&(1<<REQIdx) != 0, f1[1]&(1<<RESPIdx) != 0
 	known := verifOr(verifAnd(rel, id == a), verifAnd(!rel, id == b))
+	// the acceptor may be slow: the accept queue is empty or full
+	prefull := verifBool("accept-queue-full")
+	if prefull {
+		for len(m.tubeQueue) < cap(m.tubeQueue) {
+			m.tubeQueue <- &Reliable{id: 0xEE}
+		}
+	}
 	verifOnBlock(func() {
+		if prefull {
+			var exists bool
+			if rel {
+				_, exists = m.reliableTubes[id]
+			} else {
+				_, exists = m.unreliableTubes[id]
+			}
+			if conn.reads < 2 {
+				// blocked while offering the new tube to the acceptor
+				verifCover("offer-pending")
+				verifAssert(verifAnd(req, !known), "C09: the receive loop waits for the acceptor only to offer a tube created by a REQ for a free pair")
+				return
+			}
+			verifAssert(verifOr(known, !exists), "C09: a tube that exists for its opener is always offered to Accept (it is never dropped silently when the accept queue is full)")
+			return
+		}
 		// the loop has consumed both frames and the end of input
 		verifAssert(conn.reads == 2, "C11: the receive loop keeps reading after any first frame (a malformed frame does not stop the muxer)")
 		n := len(c09Log)
@@ -429,4 +459,47 @@ func VH_C11_unreliable_receive_never_blocks_the_receive_loop() {
 	verifBlockingIsViolation()
 	_ = u.receive(f)
 	verifCover("returned")
+}
+
+// A frame waiting in a tube (reorder heap, receive queue) keeps its own bytes
+// while the muxer reuses its single receive buffer for the following packets -
+// of ANY tube: otherwise a late frame delivers another tube's bytes.
+//
+//verif:prop C09
+//verif:bounds as VH_C08_decoded_frame_payload_is_a_private_copy
+//verif:cover checked
+func VH_C09_queued_frames_never_pick_up_another_tubes_bytes() {
+	VH_C08_decoded_frame_payload_is_a_private_copy()
+}
+
+// A peer can take every identifier of this side's parity (remotely requested
+// identifiers are not parity-checked): creating a tube must then FAIL, not
+// search forever while holding the muxer's lock.
+//
+//verif:prop C11
+//verif:bounds as VH_C09_picktubeid_smallest_free_with_own_parity; exceeding 400 loop iterations is a violation (termination required)
+//verif:cover picked;exhausted
+//verif:unwind 400
+func VH_C11_picktubeid_terminates_when_every_identifier_is_taken() {
+	VH_C09_picktubeid_smallest_free_with_own_parity()
+}
+
+// The muxer must be able to take in the largest message the transport can
+// deliver: a smaller receive buffer turns one legal (if useless) peer message
+// into a permanent read error that stops every tube.
+//
+//verif:prop C11
+//verif:replay none
+//verif:bounds client or server muxer as built by newMuxer; the receive loop is run against a connection that records the size of the buffer it is offered
+//verif:cover offered
+func VH_C11_receive_buffer_holds_the_largest_transport_message() {
+	conn := &c09Conn{}
+	m := newMuxer(conn, 0, verifBool("server"), logrus.NewEntry(logrus.New()))
+	check := func() {
+		verifCover("offered")
+		verifAssert(conn.offered >= transport.MaxPlaintextSize, "C11: the muxer offers the transport a receive buffer that holds its largest message (MaxPlaintextSize)")
+	}
+	verifOnBlock(check)
+	m.receiver()
+	check()
 }
